@@ -8,8 +8,9 @@ V=$(cd "$(dirname "$0")/.." && pwd)
 WT=$(mktemp -d /tmp/pyvc_mut.XXXXXX)
 git -C /repo worktree add --detach "$WT" HEAD >/dev/null 2>&1 || exit 3
 ( cd "$WT" && git apply "$PATCH" ) || { echo "patch does not apply"; git -C /repo worktree remove --force "$WT"; exit 3; }
-( cd "$V" && PYTHONPATH="$WT" PYVC_REPO="$WT" VERIF_EVIDENCE_DIR="$WT/.evidence" .venv/bin/python props/$PROP.py --tier $TIER 2>&1 | grep -v "^WARNING" )
-rc=${PIPESTATUS[0]}
+out=$(cd "$V" && PYTHONPATH="$WT" PYVC_REPO="$WT" VERIF_EVIDENCE_DIR="$WT/.evidence" .venv/bin/python props/$PROP.py --tier $TIER 2>&1)
+rc=$?
+echo "$out" | grep -v "^WARNING"
 git -C /repo worktree remove --force "$WT" >/dev/null 2>&1
 rm -rf "$WT"
 exit $rc
